@@ -266,6 +266,14 @@ func roundtripPlan(sig, tier string) []Unit {
 		for _, h := range histories(u8alpha, 3) {
 			units = append(units, Unit{Opts: o, Mon: mon, Tag: "H3u8", History: h})
 		}
+		// a larger batch containing every value seen so far; all attribute
+		// columns of one record crossing the index width together
+		for _, h := range prefixRampHistories(sig, 100, 300) {
+			units = append(units, Unit{Opts: o, Mon: mon, Tag: "prefixramp-u8", History: h})
+		}
+		for _, h := range allAttrsHistories(sig, 300) {
+			units = append(units, Unit{Opts: o, Mon: mon, Tag: "allattrs-u8", History: h})
+		}
 	}
 	return units
 }
@@ -327,6 +335,45 @@ func rampLetters(sig string, n int) []Letter {
 		{Sig: sig, Ramp: &Ramp{Kind: "attrs", N: n, Uses: 4}},
 		{Sig: sig, Ramp: &Ramp{Kind: "units", N: n, Uses: 2}},
 	}
+}
+
+// prefixRampHistories: every batch draws its values from the same sequence
+// (base fixed), so a later, larger batch contains every value seen so far --
+// the shape under which a record rebuilt after a dictionary reset has exactly
+// the cardinality that triggered the reset. The uses=5 prefix makes the
+// history high-reuse (reset regime), the uses=1 prefix low-reuse (overflow).
+func prefixRampHistories(sig string, small, large int) [][]Letter {
+	var out [][]Letter
+	for _, l := range rampLetters(sig, small) {
+		if l.Ramp.Uses != 1 {
+			continue
+		}
+		mk := func(n, uses int) Letter {
+			return Letter{Sig: sig, Ramp: &Ramp{Kind: l.Ramp.Kind, N: n, Uses: uses, Base: 7000}}
+		}
+		out = append(out,
+			[]Letter{mk(small, 1), mk(large, 1), mk(small, 1)},
+			[]Letter{mk(small, 5), mk(small, 5), mk(large, 1), mk(small, 1)},
+			[]Letter{mk(small, 5), mk(small, 5), mk(large, 1), mk(large+1, 1), mk(large, 1)},
+			[]Letter{mk(large, 1), mk(large, 1), mk(small, 1)})
+	}
+	return out
+}
+
+// allAttrsHistories: batches in which every dictionary column of an attribute
+// record (16-bit and 32-bit parent ids) crosses the index width together.
+func allAttrsHistories(sig string, n int) [][]Letter {
+	var out [][]Letter
+	for _, k := range []string{"allattrs", "allattrs32"} {
+		mk := func(n, uses, base int) Letter {
+			return Letter{Sig: sig, Ramp: &Ramp{Kind: k, N: n, Uses: uses, Base: base}}
+		}
+		out = append(out,
+			[]Letter{mk(n, 1, 0), mk(n, 1, 0)},
+			[]Letter{mk(n/3, 1, 0), mk(n, 1, 0), mk(n/3, 1, 0)},
+			[]Letter{mk(n/3, 4, 0), mk(n/3, 4, 0), mk(n, 1, 0), mk(n, 1, 5000)})
+	}
+	return out
 }
 
 func dictConfigs() []Options {
@@ -436,6 +483,14 @@ func optionsPlan(tier string) []Unit {
 					units = append(units, Unit{Opts: o, Mon: mon, Tag: "ramp100x-" + sig, History: h})
 				}
 			}
+			if o.Dict == "u8" || o.Dict == "none" || thorough {
+				for _, h := range prefixRampHistories(sig, 100, 300) {
+					units = append(units, Unit{Opts: o, Mon: mon, Tag: "prefixramp-" + sig, History: h})
+				}
+				for _, h := range allAttrsHistories(sig, 300) {
+					units = append(units, Unit{Opts: o, Mon: mon, Tag: "allattrs-" + sig, History: h})
+				}
+			}
 		}
 		if thorough {
 			// cross 65,535 with the default (u16) limit in both regimes
@@ -500,6 +555,12 @@ func nopanicPlan(tier string) []Unit {
 			// one batch alone exceeds the limit
 			for _, l := range rampLetters(sig, 300) {
 				units = append(units, Unit{Opts: o, Mon: mon, Tag: "ramp300-u8", History: fixRamps([]Letter{l, l})})
+			}
+			for _, h := range prefixRampHistories(sig, 100, 300) {
+				units = append(units, Unit{Opts: o, Mon: mon, Tag: "prefixramp-u8", History: h})
+			}
+			for _, h := range allAttrsHistories(sig, 300) {
+				units = append(units, Unit{Opts: o, Mon: mon, Tag: "allattrs-u8", History: h})
 			}
 		}
 		// id-width edges: refused with an error, never a panic; the stream stays usable
@@ -626,6 +687,23 @@ func dictPlan(tier string) []Unit {
 				units = append(units, Unit{Opts: o, Mon: mon, Tag: "long-" + sig, History: fixRamps(h)})
 			}
 		}
+		// the implicit default limit (no limit option at all): one column takes
+		// 180,000 distinct values, crossing 65,535 again after the index has been
+		// widened and the dictionaries restarted
+		{
+			l := rampLetters(sig, 30000)[0]
+			units = append(units, Unit{Opts: DefaultOptions(), Mon: mon, Tag: "implicit-default-" + sig, History: fixRamps([]Letter{l, l, l, l, l, l})})
+		}
+		for _, h := range prefixRampHistories(sig, 100, 300) {
+			for _, thr := range []float64{0, 0.3, 1e18} {
+				units = append(units, Unit{Opts: Options{Dict: "u8", Reset: thr, Zstd: -1, Span: -1, Attrs16: -1, Attrs32: -1}, Mon: mon, Tag: "prefixramp-" + sig, History: h})
+			}
+		}
+		for _, h := range allAttrsHistories(sig, 300) {
+			for _, thr := range []float64{0, 0.3, 1e18} {
+				units = append(units, Unit{Opts: Options{Dict: "u8", Reset: thr, Zstd: -1, Span: -1, Attrs16: -1, Attrs32: -1}, Mon: mon, Tag: "allattrs-" + sig, History: h})
+			}
+		}
 		if thorough {
 			for _, thr := range []float64{0, 0.3, 1e18} {
 				o := DefaultOptions()
@@ -634,7 +712,7 @@ func dictPlan(tier string) []Unit {
 					if l.Ramp.N*l.Ramp.Uses > 65000 {
 						continue
 					}
-					units = append(units, Unit{Opts: o, Mon: mon, Tag: "ramp30k-" + sig, History: fixRamps([]Letter{l, l, l})})
+					units = append(units, Unit{Opts: o, Mon: mon, Tag: "ramp30k-" + sig, History: fixRamps([]Letter{l, l, l, l, l, l})})
 				}
 			}
 		}
